@@ -96,7 +96,8 @@ class KeyCondition(Condition):
         return (self.key,)
 
     def replace_key(self, current: cirq.MeasurementKey, replacement: cirq.MeasurementKey):
-        return KeyCondition(replacement) if self.key == current else self
+        # only the key changes; the record index is kept
+        return dataclasses.replace(self, key=replacement) if self.key == current else self
 
     def __str__(self):
         return str(self.key) if self.index == -1 else f'{self.key}[{self.index}]'
@@ -200,7 +201,8 @@ class BitMaskKeyCondition(Condition):
         )
 
     def replace_key(self, current: cirq.MeasurementKey, replacement: cirq.MeasurementKey):
-        return BitMaskKeyCondition(replacement) if self.key == current else self
+        # only the key changes; index, target value, comparison and bitmask are kept
+        return attrs.evolve(self, key=replacement) if self.key == current else self
 
     def __str__(self):
         s = str(self.key) if self.index == -1 else f'{self.key}[{self.index}]'
